@@ -395,11 +395,22 @@ def _converters(ctx: Ctx, r: RuleResult):
             r.ok(f'{cname}.{fname}: tuple()')
             continue
         fi = ctx.ev.callee(ct) if isinstance(ct, (FuncRef, BoundMethod)) else None
+        val = Sym('values')
+        if fi is None and isinstance(ct, Lam):
+            # a converter built by a factory (a closure): what it computes when applied to the values
+            st_c = _State()
+            applied = ctx.ev.apply(ct, (val,), (), st_c, 0)
+            if not (isinstance(applied, Call) and applied.func == ct):
+                class _Pseudo:
+                    name = ast.unparse(conv)
+                    where = f.where
+                fi = _Pseudo
+                outs = [Outcome('return', applied, (), st_c.effects, st_c.asserts, 0)]
         if fi is None:
             r.fail(key, f'converter {ast.unparse(conv)} is not a recognised element-wise map', f.where)
             continue
-        val = Sym('values')
-        outs = ctx.ev.run(fi, {fi.params()[0]: val})
+        if not isinstance(ct, Lam):
+            outs = ctx.ev.run(fi, {fi.params()[0]: val})
         good = False
         for o in outs:
             v = o.value
